@@ -120,7 +120,12 @@ fn dev_json(k: &str, time: u32, en: bool, lo: u32, hi: u32, vect: u8, prio: u8, 
 
 impl M {
     /// Creates a simulator, attaches keyboard and display and emits the `New` header.
-    pub fn new(run: u64, flags: SimFlags, out: &mut Out) -> M {
+    pub fn new(run: u64, flags: SimFlags, out: &mut Out) -> M { Self::new_from(run, flags, out, |_| vec![]) }
+
+    /// As `new`, but `pre` may use the simulator before the header is taken (unlogged): attach timers
+    /// (returned with their configuration so that the header lists them), run something, reset.
+    pub fn new_from(run: u64, flags: SimFlags, out: &mut Out,
+                    pre: impl FnOnce(&mut Simulator) -> Vec<(Arc<RwLock<TimerDevice>>, (u32, u32), u8, u8)>) -> M {
         let mut sim = Simulator::new(flags);
         let kb = BufferedKeyboard::default();
         let ds = BufferedDisplay::default();
@@ -128,6 +133,7 @@ impl M {
         let disp = ds.get_buffer().clone();
         sim.device_handler.set_keyboard(kb);
         sim.device_handler.set_display(ds);
+        let pre_timers = pre(&mut sim);
         let shadow: Vec<Word> = (0..=u16::MAX).map(|a| sim.mem[a]).collect();
         let mut m = M {
             sim, shadow, kbd, disp, intfns: vec![], timers: vec![], timer_cfg: vec![],
@@ -136,6 +142,13 @@ impl M {
             regdevs: vec![], last_res: "none",
             run, dead: false, filter_disp: None,
         };
+        for (t, (lo, hi), vect, prio) in pre_timers {
+            let (time, en) = { let g = t.read().unwrap(); (g.get_remaining(), g.enabled) };
+            m.timers.push(t);
+            m.timer_cfg.push((lo, hi));
+            let slot = m.timers.len();
+            m.devs.push(dev_json("timer", time, en, lo, hi, vect, prio, slot, 0));
+        }
         // initial memory as dense segments over a fill word
         let fill = match flags.machine_init {
             MachineInitStrategy::Known { value } => word(value, 0),
